@@ -170,11 +170,24 @@ def run(pid, tier, seed, work, log, replay=None):
             for f in sorted(os.listdir(fixed)):
                 if f.endswith('.json'):
                     scen.append(json.load(open(os.path.join(fixed, f))))
+    # C17, single-pass clause: two requests for one bucket while the first pass has not registered yet
+    gc2 = []
+    if pid == 'C17' and not replay:
+        import fam_conc
+        gc2 = fam_conc.gc2_scenarios()
+    elif pid == 'C17' and replay and scen[0].get('family') == 'gc2':
+        gc2, scen = scen, []
     # ---- (c) run on the real code + validate
     tb = V.build_harness(work)
-    traces, crashed = V.run_scenarios(tb, scen, work)
+    traces, crashed = V.run_scenarios(tb, scen + gc2, work)
     if crashed:
         raise V.Inconclusive('harness process died: %s' % crashed[0][2][-800:])
+    if gc2:
+        import fam_conc
+        bad2, n2 = fam_conc.check_gc2({s['id']: traces.get(s['id'], []) for s in gc2})
+        for sid, n, chk in bad2:
+            res['violations'].append({'sid': sid, 'n': n, 'check': chk, 'kf': ''})
+        log('single-pass clause: %d double requests, %d violations' % (n2, len(bad2)))
     allev = []
     per = {}
     for s in scen:
@@ -187,7 +200,7 @@ def run(pid, tier, seed, work, log, replay=None):
         raise V.Inconclusive('trace validation did not consume the whole trace: %s\n%s' % (
             r.get('tlc_error'), r['out'][-1500:]))
     mine = CHECKS[pid]
-    byid = {s['id']: s for s in scen}
+    byid = {s['id']: s for s in scen + gc2}
     for sid, n, chk in r['bad']:
         if not chk.startswith(mine):
             continue
